@@ -1,1 +1,1 @@
-from driver import KaniJob as K, RsxJob as X  # noqa: F401
+from driver import KaniJob as K, RsxJob as X, ScanJob as S  # noqa: F401
